@@ -1491,7 +1491,8 @@ impl Scenario for C06 {
          retention window for diffs, timing) behind either the real rtr::Server or a LegacyCache stub \
          capped at version 0/1, 1-3 real rtr::Client routers (initial version 0-2; initial state none / \
          genuine earlier state with matching data / foreign session) each performing 1-5 steps and \
-         reconnecting with Client::state() after failures, and a chaos task applying up to 9 \
+         reconnecting with Client::state() after failures (one time in six through Client::run() \
+         instead of single steps: the steps completed inside are judged from marks taken at apply), and a chaos task applying up to 9 \
          operations at tape-chosen simulated instants: update (+notify, forgotten, burst), notify \
          without change, restart (new session), not-ready toggle, timing change, transport faults \
          (disconnect, cut with loss, read/write error, stalls up to 31 s) and clock jumps; transport \
